@@ -6,3 +6,4 @@ open Chess.Props.C05
 #print axioms standard_text
 #print axioms parse_display
 #print axioms display_parse
+#print axioms standard_is_parsed
